@@ -45,7 +45,7 @@ def validate_output_conflicts(
         GraphConfigError: If multiple nodes produce the same output and they
             are neither mutex nor ordered.
     """
-    expanded_groups = _expand_mutex_groups(G, nodes)
+    expanded_groups = _expand_mutex_groups(G, nodes, output_to_sources)
 
     # Collect outputs that have multiple producers
     contested_outputs = {output: sources for output, sources in output_to_sources.items() if len(sources) > 1}
@@ -205,22 +205,82 @@ def _is_pair_ordered(
     return nx.has_path(sub, a, b) or nx.has_path(sub, b, a)
 
 
-def _compute_exclusive_reachability(G: nx.DiGraph, targets: list[str]) -> dict[str, set[str]]:
-    """For each target, find nodes reachable ONLY through that target.
+def _compute_exclusive_reachability(
+    G: nx.DiGraph,
+    targets: list[str],
+    *,
+    gate: str | None = None,
+    node_map: dict[str, HyperNode] | None = None,
+    output_to_sources: dict[str, list[str]] | None = None,
+) -> dict[str, set[str]]:
+    """For each target, find nodes that run ONLY when that target was chosen.
 
-    A node is "exclusively reachable" from target T if:
-    - It is reachable from T (via graph edges)
-    - It is NOT reachable from any other target
+    A node belongs to the branch of target T if:
+    - It is reachable from T (via graph edges) and from no other target, AND
+    - It cannot start without that branch: T itself is started by this gate
+      only (a target shared with another gate runs whenever that gate picks
+      it), and a downstream node needs something only the branch provides --
+      a value without a default of its own whose producers all lie in the
+      branch, a signal emitted only there, or a gate of the branch routing to it.
     """
     reachable: dict[str, set[str]] = {t: set(nx.descendants(G, t)) | {t} for t in targets}
 
     all_reachable_nodes = [node for nodes in reachable.values() for node in nodes]
     node_counts = Counter(all_reachable_nodes)
 
-    return {t: {node for node in reachable[t] if node_counts[node] == 1} for t in targets}
+    candidates = {t: {node for node in reachable[t] if node_counts[node] == 1} for t in targets}
+    if node_map is None or output_to_sources is None:
+        return candidates
+    return {t: _dependent_on_branch(t, candidates[t], gate, node_map, output_to_sources) for t in targets}
 
 
-def _expand_mutex_groups(G: nx.DiGraph, nodes: list[HyperNode]) -> list[list[set[str]]]:
+def _controllers_of(name: str, node_map: dict[str, HyperNode]) -> set[str]:
+    """Names of the gates that list `name` among their targets."""
+    from hypergraph.nodes.gate import GateNode
+
+    return {g.name for g in node_map.values() if isinstance(g, GateNode) and name in g.targets}
+
+
+def _dependent_on_branch(
+    target: str,
+    candidates: set[str],
+    gate: str | None,
+    node_map: dict[str, HyperNode],
+    output_to_sources: dict[str, list[str]],
+) -> set[str]:
+    """The candidates that cannot run unless `target` was chosen by `gate`."""
+    if _controllers_of(target, node_map) - {gate}:
+        return set()
+
+    def needs(name: str, branch: set[str]) -> bool:
+        node = node_map[name]
+        for param in node.inputs:
+            sources = output_to_sources.get(param, [])
+            if sources and set(sources) <= branch and not node.has_default_for(param):
+                return True
+        for signal in node.wait_for:
+            sources = output_to_sources.get(signal, [])
+            if sources and set(sources) <= branch:
+                return True
+        controllers = _controllers_of(name, node_map)
+        return bool(controllers) and controllers <= branch
+
+    branch = {target}
+    grew = True
+    while grew:
+        grew = False
+        for name in sorted(candidates - branch):
+            if name in node_map and needs(name, branch):
+                branch.add(name)
+                grew = True
+    return branch
+
+
+def _expand_mutex_groups(
+    G: nx.DiGraph,
+    nodes: list[HyperNode],
+    output_to_sources: dict[str, list[str]] | None = None,
+) -> list[list[set[str]]]:
     """Expand mutex groups to include downstream exclusive nodes.
 
     For each gate with mutually exclusive targets (RouteNode with multi_target=False
@@ -234,6 +294,7 @@ def _expand_mutex_groups(G: nx.DiGraph, nodes: list[HyperNode]) -> list[list[set
     from hypergraph.nodes.gate import END, IfElseNode, RouteNode
 
     expanded_groups: list[list[set[str]]] = []
+    node_map = {n.name: n for n in nodes}
 
     for node in nodes:
         if isinstance(node, RouteNode):
@@ -246,7 +307,13 @@ def _expand_mutex_groups(G: nx.DiGraph, nodes: list[HyperNode]) -> list[list[set
         if len(targets) < 2:
             continue
 
-        exclusive_sets = _compute_exclusive_reachability(G, targets)
+        exclusive_sets = _compute_exclusive_reachability(
+            G,
+            targets,
+            gate=node.name,
+            node_map=node_map,
+            output_to_sources=output_to_sources,
+        )
         expanded_groups.append(list(exclusive_sets.values()))
 
     return expanded_groups
